@@ -482,6 +482,8 @@ class Exec:
                              f"ndarray.{attr}")
             raise Undecided(f"ndarray.{attr}")
         if isinstance(v, MaskedV):
+            if attr == "tolist":      # the selected values as a list: the same sub-sequence
+                return FuncV(lambda ex, s, args, kw, nd, _v=v: _v, "selection.tolist")
             if attr == "flatten":
                 return FuncV(lambda ex, s, args, kw, nd, _v=v: npmodel.masked_flatten(ex, s, _v, nd), "selection.flatten")
             raise Undecided(f"attribute .{attr} of a boolean-mask selection")
@@ -845,7 +847,45 @@ class Exec:
             raise Undecided("dict lookup with non-constant key")
         if isinstance(v, ARef):
             return self.arr_subscript(st, v, sl, e)
+        if isinstance(v, MaskedV):
+            d = self.arr(st, v.arr)
+            if d.rank == 2 and isinstance(sl, ast.Tuple) and len(sl.elts) == 2 and isinstance(sl.elts[0], ast.Slice) and not isinstance(sl.elts[1], ast.Slice):
+                a = sl.elts[0]
+                if a.lower is None and a.upper is None and a.step is None:
+                    # column c of the selected rows = the selection (same mask) of column c
+                    return MaskedV(self.arr_subscript(st, v.arr, sl, e), v.mask)
+            raise Undecided("subscript of a boolean-mask selection other than [:, column]")
         raise Undecided(f"subscript on {type(v).__name__} at line {e.lineno}")
+
+    def ev_ListComp(self, e, st):
+        """[expr for x in seq] over a symbolic-length list: a symbolic sequence of the same length whose element i is expr with x = seq[i]
+        (the element expression is evaluated when an element is asked for; it must not write)"""
+        if len(e.generators) != 1 or e.generators[0].ifs or e.generators[0].is_async or not isinstance(e.generators[0].target, ast.Name):
+            raise Undecided("list comprehension other than [expr for name in sequence]")
+        gen = e.generators[0]
+        src = self.ev(gen.iter, st)
+        from . import objects
+        if isinstance(src, objects.SLRef):
+            n = st.heap[src.sid].length
+            elem = lambda ex_, st_, i: objects.symlist_get(ex_, st_, src, i)
+        elif isinstance(src, SeqV):
+            n, elem = src.length, src.getter
+        else:
+            raise Undecided("list comprehension over a concrete sequence")
+        var, body = gen.target.id, e.elt
+
+        def getter(ex_, st_, i):
+            s2 = st_.fork()
+            s2.env[var] = elem(ex_, s2, i)
+            nw = len(s2.writes)
+            v = ex_.ev(body, s2)
+            if len(s2.writes) != nw:
+                raise Undecided("element expression of a list comprehension writes")
+            for k, val in s2.heap.items():       # storage allocated by the element expression stays reachable from the value
+                st_.heap.setdefault(k, val)
+            st_.pc += [f for f in s2.pc[len(st_.pc):]]
+            return v
+        return SeqV(n, getter, owner="fresh", name="listcomp")
 
     def arr_subscript(self, st, v, sl, node):
         d = self.arr(st, v)
